@@ -318,6 +318,9 @@ def _generate_task_from_yield(tasks, func_name, task_dict, gen_doc):
                           func_name)
 
     msg_dup = "Task generation '%s' has duplicated definition of '%s'"
+    if 'basename' in task_dict:
+        Task.check_attr(func_name, 'basename', task_dict['basename'],
+                        Task.valid_attr['basename'])
     basename = task_dict.pop('basename', None)
     # if has 'name' this is a sub-task
     if 'name' in task_dict:
